@@ -2,10 +2,21 @@ package s0397
 
 type G1 struct {
 	F1x0 []int64
-	F1x1 *uint32
+	F1x1 []uint32
+}
+
+type G3 struct {
+	F2x0x0 uint64
+	F2x0x1 *float32
+}
+
+type G2 struct {
+	F2x0 []G3
+	F2x1 *float64
 }
 
 type T struct {
-	F0 *int32
-	F1 *G1
+	F0 int32
+	F1 []G1
+	F2 []G2
 }
